@@ -185,6 +185,9 @@ def check(ctx, rep):
             dcs = [e for e in p.calls() if q.call_name(e) == "cancel" and isinstance(q.recv(e), tuple) and (q.recv(e) in [t for t, val, b in deleg] or (q.recv(e)[0] == "attr" and (q.recv(e)[2] in ftypes or q.recv(e)[2] == DFF)))]
             if deleg and deleg[0][1] is True:
                 rep.ob("R-CANCEL-FWD", "%s.%s forwards to the delegate's cancel()" % (ci.name, hook), len(dcs) >= 1, "a delegate is present but its cancel() is not called [%s]" % sig[:100], where_of(mc), trace_of(p))
+            removed = [e for Qx, rem in queues for e, j in removal_actions(p, it, Qx, rem)]
+            if removed:
+                rep.ob("R-TRUE", "%s.%s: a job taken out of the queue means True" % (ci.name, hook), _may_be_true(v, p) and v != ("const", None), "the future's job is removed from the queue but the hook answers %s: cancel() reports failure, yet nothing will ever run or resolve this future" % fmt(v), where_of(mc), trace_of(p))
             if not _may_be_true(v, p):
                 continue
             looked = [t for t, val, b in q.atoms(p) if isinstance(t, tuple) and t[0] == "attr" and (t[2] in ftypes or t[2] == DFF)] or dcs
